@@ -201,13 +201,13 @@ def _p7d(w):
     # ONE element of kids has the tag and the value (whatever the order of the keywords); an existential condition keeps one
     # witness per inner element, so an element that occurs twice in the collection counts once
     ok = lambda q: AND(OR([EQ(t, w.kb[0]) for t in q.tags]), EQ(q.v, w.k[0]))
-    return (dict(kids=match(w.Q)(tags=match_any([w.kb[0]]), v=w.k[0])), (lambda o: OR([ok(q) for q in o.kids])), {"#count": (lambda o: SUM([B2I(ok(q)) for q in _distinct(o.kids)]))})
+    return (dict(kids=match(w.Q)(tags=match_any([w.kb[0]]), v=w.k[0])), (lambda o: OR([ok(q) for q in o.kids])), {"#count-range": ((lambda o: SUM([B2I(ok(q)) for q in _distinct(o.kids)])), (lambda o: SUM([B2I(ok(q)) for q in o.kids])))})
 
 
 @pattern("kids=match(Q)(v=k, tags=match_any([t])) (literal first, then existential)", needs=("kids", "tags"), veq_ok=False, core=False)
 def _p7e(w):
     ok = lambda q: AND(OR([EQ(t, w.kb[0]) for t in q.tags]), EQ(q.v, w.k[0]))
-    return (dict(kids=match(w.Q)(v=w.k[0], tags=match_any([w.kb[0]]))), (lambda o: OR([ok(q) for q in o.kids])), {"#count": (lambda o: SUM([B2I(ok(q)) for q in _distinct(o.kids)]))})
+    return (dict(kids=match(w.Q)(v=w.k[0], tags=match_any([w.kb[0]]))), (lambda o: OR([ok(q) for q in o.kids])), {"#count-range": ((lambda o: SUM([B2I(ok(q)) for q in _distinct(o.kids)])), (lambda o: SUM([B2I(ok(q)) for q in o.kids])))})
 
 
 @pattern("kids=match_any(Q)(v=k0, w=k1) (typed existential with two constraints)", needs=("kids",), veq_ok=False)
@@ -304,6 +304,7 @@ def harness(name, N, veq, root_sub=False):
         # a nested match on a collection abbreviates a query over the flattened collection: one result per matching inner element
         count_fn = sels.pop("#count", None)
         any_multiplicity = sels.pop("#any-multiplicity", False)
+        count_range = sels.pop("#count-range", None)
         root_type = MP2 if root_sub else w.P
         if sels:
             root = entity_selection(root_type, w.domain)
@@ -336,6 +337,11 @@ def harness(name, N, veq, root_sub=False):
         v["complete"] = AND([IMPLIES(truth[i], i in rows) for i in range(len(w.objs))])
         if any_multiplicity:
             pass
+        elif count_range is not None:
+            # an element that occurs twice in the collection: once (one witness per element) or once per occurrence - whether the
+            # existential keyword de-duplicates depends on where it stands among the keywords and is not stated
+            lo, hi = count_range
+            v["once-per-matching-inner-element"] = AND([AND(rows.count(i) >= lo(o), rows.count(i) <= hi(o)) for i, o in enumerate(w.objs)])
         elif count_fn is None:
             v["each-element-once"] = len(set(rows)) == len(rows)
         else:
